@@ -196,6 +196,17 @@ def payload_docs(r, n):
             ])
         else:
             opt = r.choice(["class", "figclass", "figwidth", "width", "height", "alt", "align", "target", "max-level", "min-level", "encoding"])
+            # a value that begins like a valid one (validated options are checked by prefix-anchored patterns)
+            optval = r.choice(["", "", "left", "center", "right", "Left", "100", "50%", "10px", "1", "3", "utf-8"]) + pay
+            if r.random() < 0.5:
+                yield r.choice([
+                    "```{image} %s\n:%s: %s\n```\n" % (r.choice(["a.png", url]), opt, optval),
+                    "```{figure} a.png\n:%s: %s\n:align: %s\n\ncaption\n```\n" % (opt, optval, r.choice(["left", "right"]) + pay),
+                    "```{image} a.png\n:target: /t\n:align: %s\n:width: %s\n```\n" % (r.choice(["left", "center", "right"]) + pay, optval),
+                    ".. image:: a.png\n   :%s: %s\n" % (opt, optval), ".. figure:: a.png\n   :%s: %s\n\n   caption\n" % (opt, optval),
+                    "```{toc}\n:%s: %s\n```\n\n# h\n" % (opt, optval), "```{note} T\n:%s: %s\n\nbody\n```\n" % (opt, optval),
+                ])
+                continue
             yield r.choice([
                 "```{note} T %s\n:class: %s\n\nbody %s\n```\n" % (pay, pay, pay),
                 "```{%s} T\n```\n" % ("unknown" + r.choice(["", "x"])), "```{unknown} %s\n```\n" % pay,
